@@ -17,9 +17,10 @@ from ..sites import strip_ref, own_inlinable
 TEXT_TYPES = ('str', '[u8]', 'std::string::String', 'std::vec::Vec<u8, std::alloc::Global>', 'std::vec::Vec<u8>')
 IN_EXTRA = ('string::String::from_utf8', 'str::from_utf8', 'std::str::from_utf8', 'core::str::from_utf8', 'convert::Into<U>>::into', 'convert::From<T>>::from',
             'TryInto<U>>::try_into')
+PRIM_EQ_RE = re.compile(r"^<(str|\[u8\]|\[u8; N(/#\d+)?\]) as std::cmp::PartialEq<(str|\[u8\]|\[u8; N(/#\d+)?\])>>::eq$")
 PRIM_EQ = ('<impl std::cmp::PartialEq for str>::eq', 'impl std::cmp::PartialEq<[U]> for [T]>::eq', 'impl std::cmp::PartialEq<[B]> for [A]>::eq',
-           'PartialEq<[U; N]> for [T]>::eq', 'PartialEq<&B> for &A>::eq', 'PartialEq<[U; N]> for [T; N]>::eq', 'array::equality',
-           '<impl std::cmp::PartialEq<&B> for &A>::eq', 'cmp::impls::<impl std::cmp::PartialEq<&B> for &A>::eq')
+           'PartialEq<[U; N]> for [T]>::eq', 'PartialEq<[U; N]> for [T; N]>::eq', 'array::equality',
+           )
 
 
 def is_text_ty(ty):
@@ -115,7 +116,7 @@ class Checker:
     def check_cmp(self, b, ty):
         t = self.full_term(b)
         key = f'cmp|{b["name"]}'
-        ok = t[0] == 'call' and any(t[1].endswith(p) for p in PRIM_EQ) and len(t[2]) == 2
+        ok = t[0] == 'call' and (any(t[1].endswith(p) for p in PRIM_EQ) or PRIM_EQ_RE.match(t[1])) and len(t[2]) == 2
         if ok:
             r = self.root_in(t[2][0])
             ok = r is not None and r[0] == 'arg' and r[1] == 1
